@@ -1,5 +1,6 @@
 import RTA.Lemmas.EdfSound
 import RTA.Lemmas.EdfSoundCompliant
+import RTA.Lemmas.EdfSoundCompliantExample
 /-! # C02 — the EDF RTAs are safe for every legal schedule
 
 Spec: `RTA/Spec/Sched.lean`; `JlfpLegal s (hepEDF s Dl)`: valid, work conserving, a job in a
@@ -121,5 +122,19 @@ theorem limited_preemptive_safe_task_set (s : Sys) (ts : List (Arr × Cost)) (Dl
     ∀ j, j < s.n → s.task j = i → MeetsBound s j R :=
   edf_limited_sound_of_compliant s ts Dl sg i hi a C last hts hwf hexa hex hc hl hseg hpos
     hlast1 hlastC hown limit R hR
+
+/-- non-vacuity: two tasks with equal relative deadlines release a unit job each at time 0
+(equal absolute deadlines, an EDF tie), the schedule serves the other task first; the schedule
+is EDF-legal, the job set complies with the task set, the analysis returns `Ok(2)`, the
+task-set theorem applies, and the bound is attained (1 is exceeded) -/
+theorem task_set_nonvacuous :
+    JlfpLegal FpEqExample.eqSys (hepEDF FpEqExample.eqSys FpEqExample.eqDl) ∧
+    Compliant FpEqExample.eqSys FpEqExample.eqTs ∧
+    edfPreemptive (taskRB FpEqExample.eqTs 0) (FpEqExample.eqDl 0)
+      (edfOthersOf FpEqExample.eqTs FpEqExample.eqDl FpEqExample.eqSg 0) 100 = .ok 2 ∧
+    (∀ j, j < FpEqExample.eqSys.n → FpEqExample.eqSys.task j = 0 → MeetsBound FpEqExample.eqSys j 2) ∧
+    ¬ MeetsBound FpEqExample.eqSys 0 1 :=
+  ⟨FpEqExample.eqSys_edf_legal, FpEqExample.eqSys_compliant, FpEqExample.eqSys_edf_result,
+    FpEqExample.eqSys_edf_meets, FpEqExample.eqSys_edf_attained.1⟩
 
 end RTA.C02
